@@ -122,7 +122,7 @@ def gen_seq(r, tier):
         cases.append(("mix", "frag_seq raw %s %s" % (tmo, ",".join(ops)), dict(m=m, tmo=tmo)))
     # a medium lifetime with explicit waits: at a timer call some queued frames have expired and others have not, so
     # that which end of the deadline queue is discarded matters
-    for _ in range(60 if tier == "thorough" else 24):
+    for _ in range(40 if tier == "thorough" else 10):
         nf = r.randrange(2, 5)
         frames = []
         for j in range(nf):
